@@ -237,10 +237,9 @@ def store_arrays(path):
     out = {}
     for k in root.array_keys():
         a = root[k]
-        x = a[:]
-        if x.dtype.kind == "f":
-            x = canon_float(x)
-        out[k] = (x.tolist(), str(a.dtype), tuple(a.chunks), a.compressor.get_config() if a.compressor else None, tuple(a.shape))
+        raw = a[:]
+        x = canon_float(raw) if raw.dtype.kind == "f" else raw
+        out[k] = (x.tolist(), str(a.dtype), tuple(a.chunks), a.compressor.get_config() if a.compressor else None, tuple(a.shape), raw)
     return out
 
 
@@ -319,6 +318,11 @@ def part_c(ctx):
                     if f["dtype"] in ("i1", "i2", "i4") and r.random() < 0.5:
                         f["dtype"] = r.choice([t for t in ("i2", "i4", "i8") if int(t[1]) > int(f["dtype"][1])])
                         edits[f["name"]] = ("dtype", f["dtype"])
+                    elif f["dtype"] in ("i1", "i2", "i4", "bool") and r.random() < 0.35 and f["name"] not in ("call_genotype", "call_genotype_mask", "call_genotype_phased"):
+                        # a widening into ANOTHER dtype kind that numpy calls a safe cast (np.can_cast): integers into a float
+                        # type that holds them exactly, a flag into an integer -- the numbers, sentinels included, must not change
+                        f["dtype"] = {"i1": r.choice(["f4", "f8"]), "i2": r.choice(["f4", "f8"]), "i4": "f8", "bool": r.choice(["i1", "i2"])}[f["dtype"]]
+                        edits[f["name"]] = ("dtype-kind", f["dtype"])
                     elif f["dtype"] == "f4" and r.random() < 0.5:
                         f["dtype"] = "f8"      # a wider float: every f4 value, and the two sentinels, widen exactly
                         edits[f["name"]] = ("dtype", "f8")
@@ -358,8 +362,13 @@ def part_c(ctx):
                     nm = f["name"]
                     if nm not in got or nm not in ref:
                         continue
-                    vals, dtype, chunks, comp, shape = got[nm]
-                    if vals != ref[nm][0]:
+                    vals, dtype, chunks, comp, shape, raw = got[nm]
+                    if edits.get(nm, ("",))[0] == "dtype-kind":
+                        # compared as numbers: the widened array must hold exactly the reference's values (a NaN equals nothing)
+                        same = raw.shape == ref[nm][5].shape and bool(np.array_equal(raw, ref[nm][5].astype(raw.dtype)))
+                    else:
+                        same = vals == ref[nm][0]
+                    if not same:
                         ctx.fail(ed, dict(array=nm), f"user schema: a retained value of {nm} changed")
                     want_dt = np.dtype(f["dtype"]).str
                     if np.dtype(dtype).str != want_dt:
